@@ -48,6 +48,8 @@ static std::string jstr(const std::string &s)
 }
 static const char *lb(lbool v) { return v == True ? "T" : v == False ? "F"
                                                                       : "U"; }
+// a flaw that was never initialised (its cause was already false) has no phi: it is not in the plan
+static const char *lv(solver &s, const lit &l) { return is_undefined(l) ? "F" : lb(s.get_sat_core().value(l)); }
 
 static std::string dump_atoms(solver &s)
 {
@@ -58,7 +60,7 @@ static std::string dump_atoms(solver &s)
     o += first ? "" : ",";
     first = false;
     o += "{\"id\":" + std::to_string(atm->get_id()) + ",\"pred\":" + jstr(atm->get_type().get_full_name()) + ",\"sigma\":\"" + lb(s.get_sat_core().value(atm->get_sigma())) + "\",\"is_fact\":" + (af->is_fact ? "true" : "false");
-    o += std::string(",\"phi\":\"") + lb(s.get_sat_core().value(af->get_phi())) + "\",\"expanded\":" + (af->is_expanded() ? "true" : "false");
+    o += std::string(",\"phi\":\"") + lv(s, af->get_phi()) + "\",\"expanded\":" + (af->is_expanded() ? "true" : "false");
     o += ",\"resolvers\":[";
     bool f2 = true;
     for (auto *r : af->get_resolvers())
@@ -76,7 +78,7 @@ static std::string dump_atoms(solver &s)
         if (p != std::string::npos)
           target = d.substr(p + 10, d.find('"', p + 10) - p - 10);
       }
-      o += "{\"kind\":\"" + kind + "\",\"rho\":\"" + lb(s.get_sat_core().value(r->get_rho())) + "\",\"target\":" + target + ",\"preconditions\":[";
+      o += "{\"kind\":\"" + kind + "\",\"rho\":\"" + lv(s, r->get_rho()) + "\",\"target\":" + target + ",\"preconditions\":[";
       bool f3 = true;
       for (auto *pf : r->get_preconditions())
       {
@@ -85,7 +87,7 @@ static std::string dump_atoms(solver &s)
         long aid = 0;
         if (auto *paf = dynamic_cast<atom_flaw *>(pf))
           aid = (long)paf->get_atom().get_id();
-        o += "{\"atom\":" + std::to_string(aid) + ",\"phi\":\"" + lb(s.get_sat_core().value(pf->get_phi())) + "\"}";
+        o += "{\"atom\":" + std::to_string(aid) + ",\"phi\":\"" + lv(s, pf->get_phi()) + "\"}";
       }
       o += "]}";
     }
@@ -98,7 +100,7 @@ static std::string dump_atoms(solver &s)
       long aid = 0;
       if (auto *paf = dynamic_cast<atom_flaw *>(&c->get_effect()))
         aid = (long)paf->get_atom().get_id();
-      o += "{\"rho\":\"" + std::string(lb(s.get_sat_core().value(c->get_rho()))) + "\",\"effect_atom\":" + std::to_string(aid) + ",\"unify\":" + (is_unification(*c) ? "true" : "false") + "}";
+      o += "{\"rho\":\"" + std::string(lv(s, c->get_rho())) + "\",\"effect_atom\":" + std::to_string(aid) + ",\"unify\":" + (is_unification(*c) ? "true" : "false") + "}";
     }
     o += "]}";
   }
